@@ -1134,6 +1134,20 @@ fn c10(_tier: &str, seed: u64) -> Report {
             let xa: Kmer<Dna, 64, u128> = Kmer { _p: core::marker::PhantomData, bs: wa };
             let xb: Kmer<Dna, 64, u128> = Kmer { _p: core::marker::PhantomData, bs: wb };
             rep.expect(xa.cmp(&xb) == wa.cmp(&wb), "C10 u128-backed full-width k-mers order by the packed integer", || format!("{:#x} vs {:#x}", wa, wb));
+            // low and high word chosen independently (the two words order in opposite directions for half the pairs): the
+            // high word, i.e. the LAST symbols, must decide
+            let (va, vb) = (a | (b << 64), b | (a << 64));
+            let ya: Kmer<Dna, 64, u128> = Kmer { _p: core::marker::PhantomData, bs: va };
+            let yb: Kmer<Dna, 64, u128> = Kmer { _p: core::marker::PhantomData, bs: vb };
+            rep.expect(ya.cmp(&yb) == va.cmp(&vb) && ya.partial_cmp(&yb) == Some(va.cmp(&vb)) && (ya == yb) == (va == vb) && (ya < yb) == (va < vb),
+                "C10 u128-backed k-mers spanning two words order by the packed integer (last symbols most significant)", || format!("{:#x} vs {:#x}: {:?}", va, vb, ya.cmp(&yb)));
+            let m80 = (1u128 << 80) - 1;
+            let za: Kmer<Dna, 40, u128> = Kmer { _p: core::marker::PhantomData, bs: va & m80 };
+            let zb: Kmer<Dna, 40, u128> = Kmer { _p: core::marker::PhantomData, bs: vb & m80 };
+            rep.expect(za.cmp(&zb) == (va & m80).cmp(&(vb & m80)), "C10 u128-backed 40-mers order by the packed integer", || format!("{:#x} vs {:#x}: {:?}", va & m80, vb & m80, za.cmp(&zb)));
+            let ia: Kmer<Iupac, 20, u128> = Kmer { _p: core::marker::PhantomData, bs: va & m80 };
+            let ib: Kmer<Iupac, 20, u128> = Kmer { _p: core::marker::PhantomData, bs: vb & m80 };
+            rep.expect((ia == ib) == (va & m80 == vb & m80), "C10 u128-backed IUPAC k-mers: equality is equality of the packed integer", || format!("{:#x} vs {:#x}", va & m80, vb & m80));
             let (ta, tb): (Kmer<text::Dna, 8>, Kmer<text::Dna, 8>) = (Kmer::from(a as usize), Kmer::from(b as usize));
             rep.expect(ta.cmp(&tb) == (a as usize).cmp(&(b as usize)), "C10 8-bit k-mers at full width order by the packed integer", || format!("{:#x} vs {:#x}", a, b));
         }
